@@ -717,7 +717,7 @@ func genOps(r *Rng, live map[string]val, seeds []seed, n int, forceSeedDelete bo
 		}
 		sort.Strings(ks)
 		if len(ks) == 0 {
-			return "zz"
+			return "s"
 		}
 		return ks[r.Intn(len(ks))]
 	}
@@ -734,7 +734,7 @@ func genOps(r *Rng, live map[string]val, seeds []seed, n int, forceSeedDelete bo
 			delete(live, id)
 		case k < 22: // create a new id
 			fresh++
-			id := fmt.Sprintf("n%d", fresh)
+			id := "n1" + strings.Repeat("0", fresh-1) // n1, n10, n100, ...: every id is a strict prefix of the next
 			if _, ok := live[id]; ok {
 				id = fmt.Sprintf("m%d", i)
 			}
@@ -768,13 +768,13 @@ func genOps(r *Rng, live map[string]val, seeds []seed, n int, forceSeedDelete bo
 				live[id] = v
 			}
 		case k < 68: // update a missing id
-			ops = append(ops, op{K: "update", ID: "zz", A: "x"})
+			ops = append(ops, op{K: "update", ID: seeds[len(seeds)-1].ID + "0", A: "x"}) // an extension of an existing id
 		case k < 86: // delete
 			id := pickLive()
 			ops = append(ops, op{K: "delete", ID: id})
 			delete(live, id)
 		case k < 92: // delete a missing id
-			ops = append(ops, op{K: "delete", ID: "zz"})
+			ops = append(ops, op{K: "delete", ID: "s"}) // a strict prefix of every seed id
 		default: // Init again in the same process
 			ops = append(ops, op{K: "init", Seeds: seeds})
 		}
@@ -838,7 +838,8 @@ func genWorkload(r *Rng, w int, thorough bool) workload {
 	var seeds []seed
 	live := map[string]val{}
 	for i := 1; i <= ns; i++ {
-		s := seed{fmt.Sprintf("s%d", i), r.Pick(avals), r.Pick(bvals)}
+		// s1, s10, s100: ids (and keys, with or without store prefix) in strict-prefix relation
+		s := seed{"s1" + strings.Repeat("0", i-1), r.Pick(avals), r.Pick(bvals)}
 		// a document that has the indexed members directly before one that lacks them
 		if i == 1 {
 			s.A, s.B = r.Pick(avals[:3]), r.Pick(bvals[1:])
@@ -881,7 +882,7 @@ func genWorkload(r *Rng, w int, thorough bool) workload {
 			ids = append(ids[:i], ids[i+1:]...)
 		}
 		// the next lifetime leaves the store empty: Init is a no-op (marker), the other calls fail
-		wl.ops2 = []op{initOp, {K: "delete", ID: "zz"}, {K: "update", ID: "zz", A: "x"}}
+		wl.ops2 = []op{initOp, {K: "delete", ID: "s"}, {K: "update", ID: "s10000", A: "x"}}
 		return wl
 	case 0:
 		// failing Inits first (nothing may be seeded, no marker), then the good one; one more failing
@@ -898,7 +899,7 @@ func genWorkload(r *Rng, w int, thorough bool) workload {
 		all := !thorough || r.Bool()
 		var pre []op
 		for i, sd := range seeds {
-			if all || i == 0 {
+			if all || i == len(seeds)-1 { // "some": only the LONGEST id exists, the others are its strict prefixes
 				v := val{r.Pick(avals), r.Pick(bvals)}
 				pre = append(pre, op{K: "create", ID: sd.ID, A: v.A, B: v.B})
 				live[sd.ID] = v
@@ -907,9 +908,9 @@ func genWorkload(r *Rng, w int, thorough bool) workload {
 		wl.kind = map[bool]string{true: "creates-of-all-seed-ids-before-first-Init", false: "creates-of-some-seed-ids-before-first-Init"}[all]
 		wl.ops1 = append(append(pre, initOp), genOps(r, live, seeds, 6, true)...)
 		// an acknowledged Delete of a seed id followed by Init again, in the same lifetime
-		wl.ops1 = append(wl.ops1, op{K: "delete", ID: seeds[0].ID}, initOp, op{K: "create", ID: "n9", A: "x"})
+		wl.ops1 = append(wl.ops1, op{K: "delete", ID: seeds[0].ID}, initOp, op{K: "create", ID: "n", A: "x"})
 		delete(live, seeds[0].ID)
-		live["n9"] = val{"x", ""}
+		live["n"] = val{"x", ""}
 	case 2:
 		wl.kind = "first-Init-with-empty-seed-set"
 		for k := range live {
@@ -919,9 +920,9 @@ func genWorkload(r *Rng, w int, thorough bool) workload {
 		live[seeds[0].ID] = v
 		wl.ops1 = []op{{K: "init"}, {K: "create", ID: seeds[0].ID, A: v.A, B: v.B}, initOp}
 		wl.ops1 = append(wl.ops1, genOps(r, live, seeds, 4, false)...)
-		wl.ops1 = append(wl.ops1, op{K: "delete", ID: seeds[0].ID}, initOp, op{K: "create", ID: "n9", A: "y", B: "u"})
+		wl.ops1 = append(wl.ops1, op{K: "delete", ID: seeds[0].ID}, initOp, op{K: "create", ID: "n", A: "y", B: "u"})
 		delete(live, seeds[0].ID)
-		live["n9"] = val{"y", "u"}
+		live["n"] = val{"y", "u"}
 	}
 	wl.ops2 = append([]op{initOp}, genOps(r, live, seeds, 3+r.Intn(3), false)...)
 	return wl
